@@ -333,6 +333,16 @@ inductive Action where
 structure Prog where
   script : Nat → Nat → Nat → List Action
 
+abbrev Table := List ((Nat × Nat × Nat) × List Action)
+
+/-- the program a finite script table stands for (what the driver builds from the `script` lines;
+    the first entry of a cell counts) -/
+def Prog.ofTable (T : Table) : Prog :=
+  { script := fun l s k =>
+      match T.find? (fun x => x.1 == (l, s, k)) with
+      | some x => x.2
+      | none => [] }
+
 /-- the primitive operations an emission/program evaluator needs; implemented by the model
     of Callback.cpp (`machine` below) and by the specification (Spec.lean).  `α` identifies an
     emission in progress (the activation), `π` is the position of its loop. -/
